@@ -92,7 +92,7 @@ func genPipeline(pool func(*rapid.T) bool, withTTL bool) func(t *rapid.T) plCase
 				return rapid.IntRange(1, c.MaxSize).Draw(t, "cost")
 			}
 		}
-		stepGen := rapid.Custom(func(t *rapid.T) plStep {
+		one := func(t *rapid.T) plStep {
 			s := plStep{K: rapid.IntRange(0, c.Keys-1).Draw(t, "k"), I: rapid.IntRange(0, 5).Draw(t, "i")}
 			switch op := rapid.IntRange(0, 29).Draw(t, "op"); {
 			case op < 10:
@@ -125,8 +125,36 @@ func genPipeline(pool func(*rapid.T) bool, withTTL bool) func(t *rapid.T) plCase
 				s.Op = "quiesce"
 			}
 			return s
+		}
+		// a drawn element is a short group of steps: mostly one step, sometimes a scenario that
+		// sets up one of the overlaps the properties name (the steps stay ordinary steps, so
+		// shrinking can still drop or simplify each of them)
+		groupGen := rapid.Custom(func(t *rapid.T) []plStep {
+			if !withTTL {
+				return []plStep{one(t)}
+			}
+			k := rapid.IntRange(0, c.Keys-1).Draw(t, "gk")
+			switch rapid.IntRange(0, 11).Draw(t, "scenario") {
+			case 0: // a write lands inside the expiry window of a scheduled entry
+				ttl := rapid.SampledFrom([]int64{1, 1e6, 1e9, 2e9, 70e9}).Draw(t, "sttl")
+				return []plStep{{Op: "set", K: k, Cost: cost(), TTL: ttl}, {Op: "quiesce"},
+					{Op: "race", K: k, Dt: ttl + rapid.Int64Range(0, 3e9).Draw(t, "over"), Cost: cost(), TTL: genPlTTL(t)}}
+			case 1: // expiry between a Delete and its event
+				ttl := rapid.SampledFrom([]int64{1, 1e6, 1e9, 2e9}).Draw(t, "sttl")
+				return []plStep{{Op: "set", K: k, Cost: cost(), TTL: ttl}, {Op: "quiesce"}, {Op: "del", K: k},
+					{Op: "tick", Dt: ttl + rapid.Int64Range(1e9, 3e9).Draw(t, "over")}}
+			case 2: // eviction between a Delete and its event: delete, then overflow the cache before the REMOVE arrives
+				g := []plStep{{Op: "set", K: k, Cost: 1}, {Op: "quiesce"}, {Op: "del", K: k}}
+				for j := 0; j < 3; j++ {
+					g = append(g, plStep{Op: "set", K: (k + 1 + j) % c.Keys, Cost: c.MaxSize}, plStep{Op: "deliver", I: 1 + j})
+				}
+				return g
+			}
+			return []plStep{one(t)}
 		})
-		c.Steps = rapid.SliceOfN(stepGen, 3, 60).Draw(t, "steps")
+		for _, g := range rapid.SliceOfN(groupGen, 3, 50).Draw(t, "steps") {
+			c.Steps = append(c.Steps, g...)
+		}
 		c.Order = rapid.SliceOfN(rapid.IntRange(0, 5), 6, 6).Draw(t, "order")
 		return c
 	}
